@@ -17,7 +17,7 @@ from vf import core, recgen
 from vf.coqlit import cbool, clist, cstr
 
 THEOREMS = [
-    "C15_generated_facts", "C15_generated_timestamp_record", "C15_generated_reserved_distinct",
+    "C15_generated_facts", "C15_generated_timestamp_record", "C15_generated_reserved_distinct", "C15_generated_purity_shapes",
     "C15_merge_order_and_precedence", "C15_merge_wording", "C15_extend_values", "C15_originals_unchanged",
     "C15_expand", "C15_grouped_view", "C15_grouped_set", "C15_grouped_replace", "C15_replace_project_only_named",
     "C15_init_from_record",
@@ -913,7 +913,12 @@ def run(ctx):
         "records (with/without replace and name=), per-timestamp expansion of records with 0-3 datetime fields at any position, "
         "grouped records of 1-3 members incl. nested groups (view, get/set through the group, _replace), Record._replace with known/"
         "reserved/unknown names, RecordFieldRewriter over fields/exclude lists (unknown, reserved, duplicate names; records and "
-        "groups), init_from_record. distinct = distinct (operation, observed inputs, parameters); non-trivial = overlapping field "
+        "groups), init_from_record; the flat view through _asdict() / _asdict(fields=) / _asdict(exclude=) / both, with member fields "
+        "called like the group object's own attributes (name, records, descriptors, flat_fields, fieldname_to_record; only in groups "
+        "without nested groups). Histories: with probability 1/2 every generated record/descriptor is first used by 1-3 other "
+        "operations (get_all_fields, definition, grouping, _asdict, extend, merge, getfields, fields, packers, expansion, rewriter, "
+        "repr, init_from_record) and after every case each descriptor must still report exactly its declared fields (fields, "
+        "get_field_tuples, getfields(t), get_all_fields). distinct = distinct (operation, observed inputs, parameters); non-trivial = overlapping field "
         "names across the inputs / >= 2 timestamp fields or a field called ts/ts_description / shadowed member fields with a "
         "non-empty replacement / a non-empty projection")
     ok = core.standard_proof_stage(ctx, ["props/C15.vo"], "C15", THEOREMS, search_fn=search, gens=["gen_compose"])
